@@ -623,9 +623,11 @@ def dump_one(f: TextIO, data: IOData):
 
     # write run type, level of theory, and basis set name (all in uppercase)
     items = [getattr(data, item) or "NA" for item in ["run_type", "lot", "obasis_name"]]
-    if items[0] == "energy":
-        items[0] = "SP"
-    print(f"{items[0].upper():10s}{items[1].upper():30s}{items[2].upper():>33s}", file=f)
+    # The run type is written with the capitalization that load_one recognizes.
+    items[0] = {"energy": "SP", "opt": "FOpt", "scan": "Scan", "freq": "Freq"}.get(
+        items[0], items[0].upper()
+    )
+    print(f"{items[0]:10s}{items[1].upper():30s}{items[2].upper():>33s}", file=f)
 
     # write basic information
     _dump_integer_scalars("Number of atoms", data.natom, f)
